@@ -107,6 +107,17 @@ class Pending:
 PENDING = Pending()
 
 
+class LoopUnknown:
+    """Value of a local at the head of a loop with an invariant when the loop contract gives no
+    shape for it: every iteration must assign it before reading it; a read is an engine error."""
+
+    def __repr__(self):
+        return '<loop-carried, no shape>'
+
+
+LOOP_UNKNOWN = LoopUnknown()
+
+
 # ------------------------------------------------------------------------------------------------
 # Enum encoding
 
